@@ -487,8 +487,14 @@ class KVectorize(Kind):
     name = "Vectorize"
 
     def draw_cfg(self, tape):
-        inner = tape.choice(["Sum", "DSum", "Mean", "Count", "list", "StoreItems", "mixed"], "inner")
-        return {"inner": inner, "dim": 2 + (tape.draw(2, "dim") if inner != "mixed" else 0),
+        inner = tape.choice(["Sum", "DSum", "Mean", "Count", "list", "StoreItems", "mixed", "VMC"], "inner")
+        dim = 2 + (tape.draw(2, "dim") if inner != "mixed" else 0)
+        if inner not in ("mixed", "VMC") and tape.chance(1, 4, "one-dimensional-vector"):
+            dim = 1
+        if inner == "VMC":
+            # every component is a (deep copy of a) VarianceMeanCount
+            return {"inner": inner, "dim": dim, "family": "smalldy"}
+        return {"inner": inner, "dim": dim,
                 "family": "wild" if inner == "DSum" and tape.draw(2, "w") else
                 tape.choice(["int", "dyadic"], "family")}
 
@@ -502,6 +508,8 @@ class KVectorize(Kind):
             return lena.math.Vectorize(lena.math.Mean(), dim=cfg["dim"])
         if inner == "Count":
             return lena.math.Vectorize(lena.flow.Count(), dim=cfg["dim"])
+        if inner == "VMC":
+            return lena.math.Vectorize(lena.math.VarianceMeanCount(corrected=False), dim=cfg["dim"])
         if inner == "mixed":
             # components that yield different numbers of results: the shorter output is padded
             return lena.math.Vectorize([lena.flow.StoreFilled(yield_as_a_group=False), lena.math.Sum()])
@@ -554,6 +562,11 @@ class KVectorize(Kind):
                     return ("context", "result %d of Vectorize came with context %r; the last filled "
                             "context is %r" % (i, summarize(ctx), summarize(last_ctx(hist))))
             return None
+        if inner == "VMC" and n == 0:
+            if outcome[0] != "raise" or not isinstance(outcome[1], lena.core.LenaZeroDivisionError):
+                return ("empty", "an empty inner VarianceMeanCount must raise LenaZeroDivisionError, "
+                        "got %r" % (summarize(outcome),))
+            return None
         if n == 0 and "Mean" in kinds:
             if outcome[0] != "raise" or not isinstance(outcome[1], lena.core.LenaZeroDivisionError):
                 return ("empty", "an empty inner Mean must raise LenaZeroDivisionError, got %r"
@@ -580,6 +593,16 @@ class KVectorize(Kind):
             elif k == "Mean":
                 fold, py = float_sums(0, nums)
                 ok = got == float(fold) / float(n) or got == float(py) / float(n)
+            elif k == "VMC":
+                fr = [Fraction(x) for x in nums]
+                mean = sum(fr) / n
+                var = sum(x * x for x in fr) / n - mean * mean
+                scale = max(1.0, float(sum(x * x for x in fr) / n))
+                try:
+                    ok = (got.count == n and abs(got.mean - float(mean)) <= 1e-9 * max(1.0, abs(float(mean)))
+                          and abs(got.variance - float(var)) <= 1e-9 * scale)
+                except AttributeError:
+                    ok = False
             else:
                 ok = got == (n, {"count": n})
             if not ok:
